@@ -132,7 +132,8 @@ CHECKS["C12"] = (
 CHECKS["C13"] = (
     "TorchDispatchMode write-watch on every public call (schema is_write flags x storage identity of caller tensors, parameters, "
     "buffers) + bitwise before/after snapshots (incl. the storage surrounding views) + history-independence monitor (every call of a "
-    "random call sequence vs the same call on a fresh never-called copy, bit for bit)",
+    "random call sequence vs the same call on a fresh never-called copy, bit for bit) + the repository's own test-suite run under a "
+    "class-level contract plugin (argument bit patterns and eval-mode state before/after each of ~670 wrapped calls)",
     "For transforms, flows and distributions in eval and training mode, inputs/context presented plain, as slices of a larger tensor, "
     "non-contiguous and as requires_grad leaves: no ATen op may write into caller or (eval) model storage, snapshots must be bit-identical, "
     "training-mode writes must be on the documented statistics only, and results must not depend on earlier calls (mixed operations, mixed "
@@ -153,7 +154,8 @@ CHECKS["C15"] = (
 CHECKS["C16"] = (
     "finite-difference monitor in float64: directional derivatives from back-propagation vs Richardson-extrapolated central "
     "differences (h, h/2 with kink detection and resampling) - jointly over all parameters, per parameter tensor, for inputs and "
-    "context; back-propagation executed twice (also after an inverse call filled a weight cache first); finiteness at inputs with exact zeros",
+    "context; back-propagation executed twice (also after an inverse call filled a weight cache first); finiteness at inputs with exact zeros; "
+    "float32-twin monitor (gradients of the .float() copy vs the float64 ones, norm-wise); library distributions as subjects too",
     "Relative agreement 1e-5 (observed <= 4e-9) for the whole transform zoo with smooth conditioners and small flows, both directions, "
     "training and evaluation mode; a parameter whose finite difference is non-zero must receive a finite gradient; backward must "
     "succeed repeatedly.",
@@ -165,7 +167,8 @@ CHECKS["C19"] = (
     "dtype-twin monitor: every float32 model next to deepcopy(model).double() on x and x.double(); agreement judged against a bound of "
     "single-precision rounding plus input rounding amplified by the local conditioning measured on the float64 twin (item Jacobian; "
     "multi-scale finite-difference sensitivity of the log-det); finiteness, no exception, result dtype = input dtype; dense element-wise "
-    "runs of the four spline functions (1e5-1e6 points per family/direction incl. knots)",
+    "runs of the four spline functions (1e5-1e6 points per family/direction incl. knots); wide linear layers (192-512 features); "
+    "late-conversion monitor (model used in float32, then .double(): must equal the twin converted before its first call)",
     "All zoo families x moderate parameter policies (fresh, randn 0.3, randn 1) x |x| <= 6 / inside boxes, both directions, flows' "
     "log_prob, BatchNorm in training mode on uncentred data (running statistics compared too).",
     "Bound constants: 64 eps32 for the result, 16 eps32 |J| for outputs, 256 (1024 inverse) eps32 x sensitivity for log-dets; items with "
@@ -175,7 +178,8 @@ CHECKS["C19"] = (
 CHECKS["C18"] = (
     "icontract post-conditions (named predicates) installed at class level on the real Distribution.log_prob / sample / "
     "sample_and_log_prob and Flow.sample_and_log_prob, driven over all distribution and flow classes x num_samples x batch_size x "
-    "context; documented-rejection probes; duplicate-draw and two-sample KS monitors for batched generation",
+    "context (incl. shape-changing image flows and context-free user bases); documented-rejection probes; duplicate-draw and two-sample KS "
+    "monitors for batched generation; shape contracts on the repository's own test-suite run under a class-level contract plugin",
     "Shapes [rows] / [n,*event] / [rows,n,*event] are asserted on every call (incl. the library's internal ones) for num_samples 1,2,5,7 x "
     "batch_size none,1,2,3,5,7,8 x context none / 1 / 3 rows / embedding net x event shapes [1],[2],[3],[2,3],[2,1,2]; valid calls must not "
     "raise; mismatching context rows must give ValueError and counts in {0,-1,2.0,'3',None} TypeError; batched sampling must not "
@@ -198,7 +202,9 @@ CHECKS["C03"] = (
 CHECKS["C04"] = (
     "row-wise pairing monitor (sample_and_log_prob vs log_prob one row at a time), hooked-noise replay monitor (instance-level wrapper "
     "records the noise the base hands to the transform; every sample is recomputed row by row under its own context row), and "
-    "Kolmogorov-Smirnov monitors (samples vs cumulative quadrature of exp(log_prob); recorded noise vs the base density)",
+    "Kolmogorov-Smirnov monitors (samples vs cumulative quadrature of exp(log_prob); recorded noise vs the base density), and a block-law "
+    "monitor (block i of sample(n, ctx) vs the single-row call sample(n, ctx[i:i+1]) through log p(x|c_i) - log p(x|c_j): two-sample z / KS, "
+    "Gibbs' inequality) for conditional distributions and flows over conditional or context-free bases",
     "Typed flow programs (1-D / 2-D) and packaged flows x context none / 1 / 3 / 4 far-apart rows / embedding net x num_samples 1,2,7: "
     "returned log-probs must equal log_prob of that sample under that context row (1e-6), sample[i,j] must be the inverse of its recorded "
     "noise under context row i (1e-9) - which decides row repetition vs tiling exactly - and 2e5 (2e6) samples must pass KS at alpha 1e-9 "
@@ -209,7 +215,8 @@ CHECKS["C04"] = (
 
 CHECKS["C05"] = (
     "exact-summation / quadrature / Gauss-Legendre / importance-sampling monitors of exp(log_prob) for every density-returning object, "
-    "Kolmogorov-Smirnov and z-test monitors of its samples against CDFs derived from its OWN log_prob, and expectation monitors for mean()",
+    "Kolmogorov-Smirnov / exact-tail (Chernoff) monitors of its samples against CDFs and probabilities derived from its OWN log_prob "
+    "(3-D tensor-grid marginals for non-factorised MADE mixtures, saturated Bernoulli logits), and expectation monitors for mean()",
     "Bernoulli: exact sum over {0,1}^D; Standard / Diagonal / ConditionalDiagonal normal and MADEMoG: quadrature for 1-2 event dimensions, "
     "self-normalised importance sampling for 3-6; BoxUniform / MG1Uniform: density x support volume; LotkaVolterraOscillating: 4-D "
     "tensor Gauss-Legendre; gaussian_kde_log_eval over the query space; 2e5 samples per object against coordinate-conditional or grid-"
